@@ -119,3 +119,43 @@ def resolve_var(prog, fn, e, s, depth=0):
         return e
     return tuple(resolve_var(prog, fn, x, s, depth + 1) if isinstance(x, tuple) and x and isinstance(x[0], str) else
                  (tuple(resolve_var(prog, fn, y, s, depth + 1) for y in x) if isinstance(x, tuple) else x) for x in e)
+
+
+def buffer_stores(prog, fn, field=None):
+    """indexed stores into a heap buffer held in a field: `x.field[i] = v` (also through Box/Vec pointer temporaries).
+    yields (block, buffer_expr, index_expr, value_expr, span, Sym)"""
+    s = Sym(prog, fn)
+    for b in fn.blocks:
+        if b.cleanup:
+            continue
+        for st in b.stmts:
+            if st[0] != "=" or isinstance(st[1], int):
+                continue
+            place = st[1]
+            idx = [p for p in place[1] if p[0] in ("[]", "[c]")]
+            if not idx:
+                continue
+            # expression of the part of the place before the index
+            pre = []
+            for p in place[1]:
+                if p[0] in ("[]", "[c]"):
+                    break
+                pre.append(p)
+            base = s.place([place[0], pre, ""]) if pre else s.local(place[0])
+            base = resolve_var(prog, fn, base, s)
+            fl = [t for t in walk(base) if t[0] == "field"]
+            if not fl:
+                continue
+            if field is not None and not any(t[2] == field for t in fl):
+                continue
+            ie = s.local(idx[0][1]) if idx[0][0] == "[]" else ("const", idx[0][1])
+            ie = resolve_var(prog, fn, ie, s)
+            yield b.idx, base, ie, resolve_var(prog, fn, s.rvalue(st[2]), s), st[3], s
+        # stores through IndexMut::index_mut results are `(*_r) = v` with _r = index_mut(buf, i)
+        for st in b.stmts:
+            if st[0] == "=" and not isinstance(st[1], int) and len(st[1][1]) == 1 and st[1][1][0][0] == "*":
+                r = s.local(st[1][0])
+                if r[0] == "call" and r[1].endswith("index_mut") and len(r[2]) == 2:
+                    base, ie = r[2]
+                    if field is None or any(t[0] == "field" and t[2] == field for t in walk(base)):
+                        yield b.idx, base, ie, resolve_var(prog, fn, s.rvalue(st[2]), s), st[3], s
